@@ -491,6 +491,9 @@ void RouterSession::checkNudging(const char *when) {
                             }
                             if (third) sig += ":a-third-connectors-end-point-lies-on-the-shared-line";
                             else if (!ci.checkpoints.empty() || !cj.checkpoints.empty()) sig += ":a-connector-of-the-pair-has-checkpoints";      // KF-C10-g
+                            // classifier (KF-C10-l): the stretch the two shared in the raw routes was shifted as a whole (centred in its
+                            // channel) and the two were left on top of each other on the new line
+                            else if (rawShared && std::fabs(c0 - rawC) > 1e-6) sig += ":the-shared-stretch-was-shifted-as-a-whole";
                         }
                     }      // created by the centring / unifying pre-processing, then not removed
                     std::string ra, rb; for (auto &qq : raw[i]) ra += fmt("(%g,%g)", qq.x, qq.y); for (auto &qq : raw[j]) rb += fmt("(%g,%g)", qq.x, qq.y);
